@@ -619,6 +619,8 @@ class SymArray(np.ndarray):
         if self.dtype == object and _floatish(dtype):
             flat = np.ndarray.reshape(self, -1) if self.ndim != 1 else self
             if any(is_sym(e) for e in flat):
+                if kw.get("copy", True) is False and all(isinstance(e, (SymReal, float, np.floating)) for e in flat):
+                    return self          # stands for a float array already: numpy hands back the same buffer
                 out = np.empty(self.shape, dtype=object).view(SymArray)
                 fo = out.reshape(-1)
                 for i, e in enumerate(self.flat):
